@@ -21,3 +21,7 @@ def run(ctx):
     ctx.guard(getitem_rule, ctx, "C08.slice")
     eff, sites = assembly_write_set(ctx, "C08.write-set")
     ctx.guard(feature_writers, ctx, "C08", eff, sites)
+    from ..rules_misc import assembly_layering_rule
+    ctx.guard(assembly_layering_rule, ctx, "C08.assembly-layering")
+    from ..rules_misc import fragment_cache_rule
+    ctx.guard(fragment_cache_rule, ctx, "C08.no-fragment-cache")
